@@ -126,6 +126,9 @@ def generate(seed, tier="quick", faults=True):
     fault = stream(seed, "fault")
     alpha = gen_alphabet(gen)
     nops = gen.randrange(15, 41)
+    long_run = stream(seed, "size").random() < (0.2 if tier == "thorough" else 0.03)
+    if long_run:
+        nops = gen.randrange(60, 121)
     ops = []
     nproc = 1
     while len(ops) < nops:
@@ -150,7 +153,7 @@ def generate(seed, tier="quick", faults=True):
             ops.append({"op": "clear_cache"})
         elif r < 0.88:
             ops.append({"op": "tick", "dt": gen.choice([0.2, 16.0, 31.0, 61.0]), "n": gen.choice([1, 2, 3])})
-        elif r < 0.93 and nproc < 3:
+        elif r < 0.93 and nproc < (6 if long_run else 3):
             op = {"op": "exit"}
             if faults and fault.random() < 0.4:
                 op["fault"] = fault.choice([
